@@ -8,7 +8,7 @@ package main
 //
 // Watchdog (two stages, never a verdict from timing alone):
 //   at the deadline a goroutine dump is taken.  If every goroutine that was created by the evaluation
-//   is blocked on a channel / pipe / semaphore operation (twice, 300 ms apart, same goroutines) the
+//   is blocked on a channel / pipe / semaphore operation (twice, 1 s apart, same goroutines in the same states) the
 //   outcome is "blocked".  Otherwise the evaluation's Interrupts context is cancelled; if it returns
 //   within the grace period the outcome is what it returned; if not, a second dump decides between
 //   "blocked" and "live" (some goroutine running: long-running-but-live is not a C17 matter; the
@@ -196,7 +196,7 @@ func runCall(c call, base string, huge vals.List, deadline, grace time.Duration)
 	}
 	// stage 1: is everything that belongs to the evaluation blocked?
 	if st, dump := evalBlocked(before); st {
-		time.Sleep(300 * time.Millisecond)
+		time.Sleep(time.Second)
 		select {
 		case r := <-done:
 			return finish(r)
